@@ -426,6 +426,25 @@ def wide():
             emit("truth-or%d" % sel, base + [SET(s0, ('lor', v1, ('cmp', '==', v2, NUM(0))))])
             emit("plus-truth%d" % sel, base + [SET(s0, ('bin', '+', s1, ('cmp', '==', v1, NUM(1))))])
             emit("wX-tern%d" % sel, base + [SET(X, NUM(1)), SET(wX, ('tern', v1, s1, s2))], res=wX)
+        # 16-bit comparisons (== != < >=; `<=` and `>` are a recorded finding) in a branch, as a value, in a loop
+        for cop in ('==', '!=', '<', '>='):
+            for nm, setup2, l, r in [("s,s", [SET(s1, A), SET(s2, B)], s1, s2), ("s,s=", [SET(s1, A), SET(s2, A)], s1, s2),
+                                     ("s,c", [SET(s1, A)], s1, B), ("s,c=", [SET(s1, A)], s1, A), ("c,s", [SET(s2, B)], A, s2),
+                                     ("s,v", [SET(s1, A), SET(v1, lo)], s1, v1), ("wX,s", [SET(X, NUM(1)), SET(wX, A), SET(s2, B)], wX, s2)]:
+                c = ('cmp', cop, l, r)
+                emit("cmp%s%s-if" % (cop, nm), setup2 + [SET(s0, NUM(0)), ('if', c, SET(s0, NUM(1)), SET(s0, NUM(2)))])
+                emit("cmp%s%s-val" % (cop, nm), setup2 + [SET(s0, c)])
+                emit("cmp%s%s-and" % (cop, nm), setup2 + [SET(v2, NUM(1)), SET(s0, NUM(0)), ('if', ('land', v2, c), SET(s0, NUM(1)), SET(s0, NUM(2)))])
+        # compound shifts (in place: ASL / ROL); on an element indexed by Y or a literal: recorded finding
+        for sh in ('<<', '>>'):
+            for n in (1, 3, 7):
+                emit("cshift%s%d-s" % (sh, n), [SET(s0, A), ('expr', ('opasg', sh, s0, NUM(n)))])
+                emit("cshift%s%d-wX" % (sh, n), [SET(X, NUM(2)), SET(wX, A), ('expr', ('opasg', sh, wX, NUM(n)))], res=wX)
+            emit("cshift%s1-wY" % sh, [SET(Y, NUM(2)), SET(wY, A), ('expr', ('opasg', sh, wY, NUM(1)))], res=wY)
+            emit("cshift%s1-w1" % sh, [SET(w1, A), ('expr', ('opasg', sh, w1, NUM(1)))], res=w1)
+        emit("truth-s", [SET(s1, A), SET(s0, NUM(0)), ('if', s1, SET(s0, NUM(1)), SET(s0, NUM(2)))])
+        emit("nottruth-s", [SET(s1, A), SET(s0, NUM(0)), ('if', ('not', s1), SET(s0, NUM(1)), SET(s0, NUM(2)))])
+        emit("count-s", [SET(s1, NUM(a & 0x0103)), SET(s0, NUM(0)), ('while', ('cmp', '!=', s1, NUM(0)), ('block', [('expr', ('post', '--', s1)), ('expr', ('post', '++', s0))]))])
         for upd in ('++', '--'):
             for nm, setup, dst in [("s", [SET(s0, A)], s0), ("wX", [SET(X, NUM(1)), SET(wX, A)], wX), ("wY", [SET(Y, NUM(2)), SET(wY, A)], wY), ("w1", [SET(w1, A)], w1)]:
                 emit("post" + upd + nm, setup + [('expr', ('post', upd, dst))], res=dst)
@@ -616,12 +635,70 @@ def pointers():
     return progs
 
 
+# ----------------------------------------------------------------------------------------------- F11
+
+def scopes():
+    """local variables, parameters and shadowing: the twin uses globals with fresh names (CV.CSem has globals only)"""
+    progs = []
+    v1, v2, v3, X = VAR('v1'), VAR('v2'), VAR('v3'), VAR('X')
+    uc = "unsigned char"
+    T = [VAR('v0'), ('idx', 'a1', NUM(0)), ('idx', 'a1', NUM(1)), ('idx', 'a1', NUM(2))]     # the twin's fresh cells
+
+    def emit(name, real, twin, funcs=()):
+        def build(stmts, with_funcs):
+            pk = Pack("scopes-" + name, cap=4, shorts=False)
+            if with_funcs:
+                for f in funcs:
+                    pk.funcs.append(f)
+            for _ in range(4):
+                pk.cell()
+            pk.add(stmts + [SET(t, NUM(0)) for t in T])
+            pk.flush()
+            return pk.programs[0]
+        a = build(real, True)
+        a.oracle = build(twin, False)
+        progs.append(a)
+
+    decl = lambda n, init=None: ('raw', "%s %s%s;" % (uc, n, " = %s" % init if init is not None else ""))
+    x, y = VAR('x'), VAR('y')
+    for (a, b) in [(5, 6), (200, 130)]:
+        setup = [SET(v1, NUM(a)), SET(v2, NUM(b)), SET(v3, NUM(1)), SET(X, NUM(2))]
+        emit("local", setup + [('block', [decl('x'), SET(x, ('bin', '+', v1, NUM(1))), SET(R(0), x)])],
+             setup + [SET(T[0], ('bin', '+', v1, NUM(1))), SET(R(0), T[0])])
+        emit("local-init", setup + [('block', [decl('x', 7), SET(R(0), ('bin', '+', x, v2))])],
+             setup + [SET(T[0], NUM(7)), SET(R(0), ('bin', '+', T[0], v2))])
+        emit("shadow-global", setup + [('block', [decl('v1'), SET(v1, NUM(9)), SET(R(0), v1)]), SET(R(1), v1)],
+             setup + [SET(T[0], NUM(9)), SET(R(0), T[0]), SET(R(1), v1)])
+        emit("siblings", setup + [('block', [decl('x'), SET(x, NUM(1)), SET(R(0), x)]), ('block', [decl('x'), SET(x, v2), SET(R(1), x)]),
+                                  ('block', [decl('x'), decl('y'), SET(y, NUM(4)), SET(x, ('bin', '+', y, v1)), SET(R(2), x)])],
+             setup + [SET(T[0], NUM(1)), SET(R(0), T[0]), SET(T[1], v2), SET(R(1), T[1]), SET(T[3], NUM(4)), SET(T[2], ('bin', '+', T[3], v1)), SET(R(2), T[2])])
+        emit("nested-shadow", setup + [('block', [decl('x'), SET(x, NUM(1)), ('block', [decl('x'), SET(x, NUM(2)), SET(R(0), x)]), SET(R(1), x)])],
+             setup + [SET(T[0], NUM(1)), SET(T[1], NUM(2)), SET(R(0), T[1]), SET(R(1), T[0])])
+        emit("in-branches", setup + [('if', v3, ('block', [decl('x'), SET(x, NUM(3)), SET(R(0), x)]), ('block', [decl('x'), SET(x, NUM(4)), SET(R(0), x)])),
+                                     ('while', v3, ('block', [decl('x'), SET(x, v3), SET(v3, NUM(0)), SET(R(1), x)]))],
+             setup + [('if', v3, ('block', [SET(T[0], NUM(3)), SET(R(0), T[0])]), ('block', [SET(T[1], NUM(4)), SET(R(0), T[1])])),
+                      ('while', v3, ('block', [SET(T[2], v3), SET(v3, NUM(0)), SET(R(1), T[2])]))])
+        # a parameter named like a global, a local named like a parameter's caller variable
+        f1 = ("void", "store", [(uc, "v1"), (uc, "k")], [('raw', uc + " x;"), SET(x, ('bin', '+', v1, VAR('k'))), SET(R(0), x)], False)
+        emit("param-shadows-global", setup + [('expr', ('call', 'store', [v2, NUM(3)])), SET(R(1), v1)],
+             setup + [SET(T[0], v2), SET(T[1], NUM(3)), SET(T[2], ('bin', '+', T[0], T[1])), SET(R(0), T[2]), SET(R(1), v1)], funcs=[f1])
+        f2 = ("void", "twice", [(uc, "k")], [('expr', ('opasg', '+', VAR('k'), VAR('k'))), SET(R(0), VAR('k'))], False)
+        emit("param-modified", setup + [('expr', ('call', 'twice', [v1])), SET(R(1), v1)],
+             setup + [SET(T[0], v1), ('expr', ('opasg', '+', T[0], T[0])), SET(R(0), T[0]), SET(R(1), v1)], funcs=[f2])
+        f3 = ("void", "inner", [(uc, "k")], [('raw', uc + " x;"), SET(x, ('bin', '+', VAR('k'), NUM(1))), SET(R(0), x)], False)
+        f4 = ("void", "outer", [(uc, "k")], [('raw', uc + " x;"), SET(x, VAR('k')), ('expr', ('call', 'inner', [('bin', '+', x, NUM(1))])), SET(R(1), x), SET(R(2), VAR('k'))], False)
+        emit("two-frames", setup + [('expr', ('call', 'outer', [v1]))],
+             setup + [SET(T[0], v1), SET(T[1], T[0]), SET(T[2], ('bin', '+', T[1], NUM(1))), SET(T[3], ('bin', '+', T[2], NUM(1))), SET(R(0), T[3]), SET(R(1), T[1]), SET(R(2), T[0])],
+             funcs=[f3, f4])
+    return progs
+
+
 # ----------------------------------------------------------------------------------------------- all
 
 def all_programs(families=None):
     fams = {"update-then-test": update_then_test, "update-then-loop": update_then_loop, "comparisons": comparisons,
             "folded": folded_comparisons, "far": far_branches, "switch": switches, "triples": triples,
-            "precedence": precedence, "loop-headers": loop_headers, "wide": wide, "nested": nested, "calls": calls, "pointers": pointers}
+            "precedence": precedence, "loop-headers": loop_headers, "wide": wide, "nested": nested, "calls": calls, "pointers": pointers, "scopes": scopes}
     out = []
     for n, f in fams.items():
         if families is None or n in families:
